@@ -44,6 +44,7 @@ structure St where
   specChecked : Nat := 0
   specDiffs : List String := []
   refs : Std.HashMap String RefSt := {}
+  digests : Std.HashMap String String := {}      -- reference content digest per merge output name
   vcaches : Std.HashMap String VCache := {}
   handles : Std.HashMap String (String × Name × Option (List Nat) × Bool × Bool) := {}   -- seg, field, except, filtering, has index
 
@@ -302,6 +303,10 @@ def vecObs (st : St) (c : Cmd) : St × Verdict :=
          countersOk st' g))
       "only entries without open handles evicted; engine live = cached entries; no double close / use after close")
   | "vcounters" => (st, .pred (countersOk st) s!"live={st.totalLive} dclose=0 uac=0")
+  | "vrefs" =>
+    let cache := st.vcaches.getD (c.arg 0) {}
+    let parts := sortStrs (cache.entries.map (fun e => s!"{nameStr e.field}:{e.refs}"))
+    (st, .exact (strList parts))
   | "vstats" =>
     match st.seg? (c.arg 0) with
     | none => (st, .exact "scripterror:noseg")
@@ -394,9 +399,14 @@ def commandObs (st : St) (c : Cmd) : St × Verdict :=
     let st' := { st with files := st.files.insert (c.arg 0) m, fileBatch := st.fileBatch.erase (c.arg 0),
                          d3 := if m.numDocs = 0 ∧ (mergedFieldNames segs).length ≥ 2 then st.d3.insert (c.arg 0) true else st.d3 }
     let cl := c.getD "close" "never"
+    -- every successful run of the same merge must reproduce the content digest of the first one
+    let digestOk : String → Bool := fun g => match kvOf g "digest", st.digests.get? (c.arg 0) with
+      | some d, some ref => d == ref
+      | _, _ => true
+    let okPred : String → Bool := fun g => g.startsWith okStr && digestOk g
     if cl == "before" then (st, .pred (fun g => g.startsWith "err:closed file=0") "err:closed file=0")
     else if cl.startsWith "report:" then
-      (st', .pred (fun g => g.startsWith "err:closed file=0" ∨ g.startsWith okStr) ("err:closed file=0 or " ++ okStr))
+      (st', .pred (fun g => g.startsWith "err:closed file=0" || okPred g) ("err:closed file=0 or " ++ okStr ++ " with the reference content digest"))
     else if (c.get? "engfail").isSome then
       (st', .pred (fun g => if kvOf g "fired" == some "0" then g.startsWith okStr
                             else g.startsWith "err:engine file=0" ∧ kvOf g "englive" == some "0")
@@ -409,9 +419,9 @@ def commandObs (st : St) (c : Cmd) : St × Verdict :=
         let limit := lim.toNat?.getD 0
         let full := c.nat "full" 0
         if limit + 16 < full then (st, .pred (fun g => g.startsWith "err:io file=0") "err:io file=0")
-        else if limit ≥ full + 16 then (st', .pred (fun g => g.startsWith okStr) okStr)
-        else (st', .pred (fun g => g.startsWith "err:io file=0" ∨ g.startsWith okStr) ("err:io file=0 or " ++ okStr))
-      | none => (st', .pred (fun g => g.startsWith okStr) okStr)
+        else if limit ≥ full + 16 then (st', .pred okPred okStr)
+        else (st', .pred (fun g => g.startsWith "err:io file=0" || okPred g) ("err:io file=0 or " ++ okStr))
+      | none => (st', .pred okPred okStr)
   | "q" => queryObs st c
   | "enc" => (st, Codec.encVerdict c |> fun v => match v with
       | .inl s => .exact s
